@@ -103,6 +103,13 @@ partial def hasLong : Expr → Bool
   | .binop _ l r => hasLong l || hasLong r
   | _ => false
 
+/-- `Doc.tame` without the long-bracket clause: no arithmetic on a string-typed operand -/
+def noStringArith : Expr → Bool
+  | .paren e => noStringArith e
+  | .unop .minus e => noStringArith e && !Doc.stringy e
+  | .binop op l r => if op.isArith then noStringArith l && noStringArith r && !(Doc.stringy l && Doc.stringy r) else true
+  | _ => true
+
 /-- judge the implementation's report by the specification (`CallSpec.lean`); the first word of
     the verdict is its category -/
 def specVerdict (f : FunctionBehavior) (c : Call) (impl : Sexp) : Option String :=
@@ -123,7 +130,8 @@ def specVerdict (f : FunctionBehavior) (c : Call) (impl : Sexp) : Option String 
     | some i =>
       let why := match argExpr c i with
         | some e =>
-          if hasLong e then "type/long-bracket: a long-bracket string literal is reported (from_string strips one character per side, so `[[count]]` is read as `[count]`)"
+          if !noStringArith e then "type/string-arith: arithmetic on a string-typed operand is given the operand's type (`-\"1\"` is called a string)"
+          else if hasLong e then "type/long-bracket: a long-bracket string literal is reported (from_string strips one character per side, so `[[count]]` is read as `[count]`)"
           else if !Doc.tame e then "type/string-arith: arithmetic on a string-typed operand is given the operand's type (`-\"1\"` is called a string)"
           else "type/unexplained: reported"
         | none => "type/no-such-argument: reported"
